@@ -419,13 +419,14 @@ def _method(proj, ci, f, ctx, containers, tested_foreign, findings, stats):
     def scan(stmts, top):
         for i, st in enumerate(stmts):
             if isinstance(st, ast.If):
-                attrs = {a for a in _self_attrs_in(st.test, sn)}
-                pres = {a for a in attrs if _presence_tested(st.test, a)}
+                test = ctx.expand1(st.test)       # a local bound once to getattr(self, 'X', None) / self.X stands for it
+                attrs = {a for a in _self_attrs_in(test, sn)}
+                pres = {a for a in attrs if _presence_tested(test, a)}
                 if pres:
                     if _returns(st.body) and not st.orelse:
-                        regions.append(([st.test], stmts[i + 1:], pres))
+                        regions.append(([test], stmts[i + 1:], pres))
                     else:
-                        regions.append(([st.test], st.body + st.orelse, pres))
+                        regions.append(([test], st.body + st.orelse, pres))
                 scan(st.body, False)
                 scan(st.orelse, False)
             elif isinstance(st, (ast.For, ast.While)):
